@@ -119,4 +119,20 @@ example : tokenize "not (a or b) and c" = [.not, .lp, .feat "a", .or, .feat "b",
 example : (OrE.one (.cons (.not (.prim (.paren (.cons (.one (.prim (.feat "a"))) (.one (.one (.prim (.feat "b")))))))) (.one (.prim (.feat "c"))))).toks
     = [.not, .lp, .feat "a", .or, .feat "b", .rp, .and, .feat "c"] := by decide
 
+/-! #### a malformed expression is an error wherever it stands
+
+  meta/builder.go `Builder.IfFeature` evaluates every expression once, with no feature on, when the statement is
+  read - also those no feature configuration ever gets to (below a node that is left out, in a grouping nobody
+  uses).  The module text is accepted only if all of them evaluate. -/
+def builderAccepts (exprs : List (List Tok)) : Bool :=
+  exprs.all fun t => (evaluate (fun _ => false) t).isSome
+
+/-- one malformed expression anywhere among the statements of the module refuses the module -/
+theorem malformed_anywhere_refused (pre post : List (List Tok)) (t : List Tok)
+    (h : evaluate (fun _ => false) t = none) : builderAccepts (pre ++ t :: post) = false := by
+  simp [builderAccepts, h]
+
+example : builderAccepts [[.feat "a"], [.feat "a", .or], [.feat "b"]] = false ∧
+    builderAccepts [[.feat "a"], [.feat "a", .or, .feat "b"], [.not, .feat "b"]] = true := by decide
+
 end YangVerif.C11
